@@ -89,6 +89,16 @@ func (q *UdpTaskQueue) popOverflowTask() (UdpTask, bool) {
 	q.enqueueMu.Lock()
 	defer q.enqueueMu.Unlock()
 
+	// Everything in the channel is older than anything in overflow (enqueue only
+	// spills once the channel is full). The caller saw the channel empty before
+	// taking the lock; producers may have refilled it and spilled since, so look
+	// again now that no enqueue can interleave.
+	select {
+	case task := <-q.ch:
+		return task, true
+	default:
+	}
+
 	if len(q.overflow) == 0 {
 		q.overflowMode = false
 		return nil, false
